@@ -45,6 +45,7 @@ type QStats struct {
 	FeasSat, FeasUnsat, FeasUnknown int
 	PropSat, PropUnsat, PropUnknown int
 	FrontEnd                        int
+	FeAudited, FeAuditDiff          int
 	ModelHits                       int
 }
 
@@ -86,6 +87,8 @@ type Exec struct {
 	st          QStats
 	readOnly    map[*Value]string
 	capConc     int
+	feAudit     int
+	feCount     int
 	lastProp    string
 	known       []Candidate
 	xdiff       int
@@ -419,6 +422,25 @@ func (e *Exec) domTerm(v *Term, d *[4]uint64) *Term {
 
 func (e *Exec) flush() {}
 
+// auditFrontEnd re-asks every feAudit-th front-end decision to the SMT solver; a disagreement makes the run
+// incomplete (exit 2). The front end is an exact finite-domain evaluation, the audit shows it agrees with z3.
+func (e *Exec) auditFrontEnd(extra *Term, got SatResult) {
+	if e.feAudit <= 0 {
+		return
+	}
+	e.feCount++
+	if e.feCount%e.feAudit != 0 {
+		return
+	}
+	rel, want := e.relevant(extra)
+	res, _ := e.sol.CheckWith(rel, extra, want)
+	e.st.FeAudited++
+	if res != Unknown && res != got {
+		e.st.FeAuditDiff++
+		e.incomplete("front-end decision disagrees with the solver: " + SMT(extra))
+	}
+}
+
 // check decides satisfiability of PC ∧ extra; on Sat the returned model is complete
 // (current model overridden by the solver's values).
 func (e *Exec) check(extra *Term, prop bool) (SatResult, Model) {
@@ -432,8 +454,10 @@ func (e *Exec) check(extra *Term, prop bool) (SatResult, Model) {
 		e.st.FrontEnd++
 		ts, any := e.truthSet(extra)
 		if !any {
+			e.auditFrontEnd(extra, Unsat)
 			return Unsat, nil
 		}
+		e.auditFrontEnd(extra, Sat)
 		m := e.copyModel()
 		m[extra.v0.Name] = pickFrom(ts, 256)
 		return Sat, m
@@ -442,6 +466,7 @@ func (e *Exec) check(extra *Term, prop bool) (SatResult, Model) {
 		// domain pre-check: the domain over-approximates the feasible values of an entangled variable
 		if _, any := e.truthSet(extra); !any {
 			e.st.FrontEnd++
+			e.auditFrontEnd(extra, Unsat)
 			return Unsat, nil
 		}
 	}
@@ -450,6 +475,7 @@ func (e *Exec) check(extra *Term, prop bool) (SatResult, Model) {
 	if !prop {
 		if r, m, ok := e.enumCheck(rel, extra, want); ok {
 			e.st.FrontEnd++
+			e.auditFrontEnd(extra, r)
 			return r, m
 		}
 	}
